@@ -446,6 +446,11 @@ def charset_rule(enc):
 def unknown_rule(form):
     if form == ';':
         return Node(['@x', R(), 'y', O(), ';'], ('unknown', '@x', (('IDENT', 'y'), ('CHAR', ';'))), needs_ns=False, kind='unknown')
+    if form == '[':
+        # brackets of three kinds inside each other
+        return Node(['@x', R(), 'y', O(), '{', O(), 'z', O(), '[', O(), 'w', O(), '(', O(), 'v', O(), ')', O(), ']', O(), 'u', O(), '}'],
+                    ('unknown', '@x', (('IDENT', 'y'), ('CHAR', '{'), ('IDENT', 'z'), ('CHAR', '['), ('IDENT', 'w'), ('CHAR', '('), ('IDENT', 'v'), ('CHAR', ')'),
+                                       ('CHAR', ']'), ('IDENT', 'u'), ('CHAR', '}'))), needs_ns=False, kind='unknown')
     return Node(['@x', R(), 'y', O(), '{', O(), 'z', O(), '}'], ('unknown', '@x', (('IDENT', 'y'), ('CHAR', '{'), ('IDENT', 'z'), ('CHAR', '}'))), needs_ns=False, kind='unknown')
 
 
